@@ -14,7 +14,7 @@ META = {
              "or is a container/insert scenario"),
     "required": ["monitor:int-index", "monitor:slice-index", "monitor:iter", "monitor:unknown-count",
                  "monitor:port-eq-hash", "monitor:builder-handle", "feature:op-object-used-before", "feature:call-poly-arity", "feature:recycled-index",
-                 "feature:container", "feature:insert"],
+                 "feature:container", "feature:insert", "feature:cfg-exit-via-branch", "feature:cfg-exit-via-branch_exit"],
     "reach": ["hugr.hugr.node_port:Node._index", "hugr.hugr.node_port:Node._normalize_index",
               "hugr.build.dfg:DfBase.add_op"],
     "assumptions": [
@@ -147,6 +147,9 @@ def gen_scenario(r):
         # the host HUGR has a freed index (deleted node with another output count) to be recycled
         sc["recycle"] = r.choice([None, 0, 1, 2, 5, 7])
         sc["recycle_on"] = True
+    if kind in ("cfg", "insert_cfg"):
+        sc["shape"] = r.randrange(3)
+        sc["exit_via_branch"] = r.random() < 0.5
     if kind == "op":
         sc["op"] = r.choice(OPS)
         sc["via"] = r.choice(VIAS)
@@ -293,12 +296,40 @@ def run_scenario(ctx, sc):
         h = b if kind == "nested" else outer.insert_nested(b, *bwires[:k])
         handle_checks(ctx, h, n, sc, kind)
     elif kind in ("cfg", "insert_cfg"):
+        # m outputs from k inputs (m != k in general), the exit reached through either entry point, directly from the
+        # entry block or through a second block, by port 0 or port 1 of a two-way branch
         b = outer.add_cfg(*bwires[:k]) if kind == "cfg" else Cfg(*([B] * k))
+        shape = sc.get("shape", 0)
+        via_branch = bool(sc.get("exit_via_branch"))
+        ctx.feat("feature:cfg-exit-via-branch" if via_branch else "feature:cfg-exit-via-branch_exit")
+
+        def to_exit(port):
+            if via_branch:
+                b.branch(port, b.exit)
+            else:
+                b.branch_exit(port)
+
         with b.add_entry() as e:
-            e.set_single_succ_outputs(*e.inputs())
-        b.branch_exit(e[0])
+            src = list(e.inputs()) or [e.load(val.TRUE)]
+            outs = [src[i % len(src)] for i in range(m)]
+            if shape == 0:
+                e.set_single_succ_outputs(*outs)
+            elif shape == 1:
+                e.set_single_succ_outputs(*src)
+            else:
+                e.set_block_outputs(e.load(val.TRUE), *outs)
+        if shape == 0:
+            to_exit(e[0])
+        elif shape == 1:
+            with b.add_successor(e[0]) as mid:
+                msrc = list(mid.inputs())
+                mid.set_single_succ_outputs(*[msrc[i % len(msrc)] for i in range(m)])
+            to_exit(mid[0])
+        else:
+            to_exit(e[1])
+            to_exit(e[0])
         h = b if kind == "cfg" else outer.insert_cfg(b, *bwires[:k])
-        handle_checks(ctx, h, k, sc, kind)
+        handle_checks(ctx, h, m, sc, f"{kind}[shape {shape}, {'branch' if via_branch else 'branch_exit'}]")
     elif kind in ("cond", "insert_cond"):
         st = tys.Either([B], [B] * k)
         b = outer.add_conditional(sumw, *bwires[:m]) if kind == "cond" else Conditional(st, [B] * m)
@@ -311,14 +342,16 @@ def run_scenario(ctx, sc):
         handle_checks(ctx, h, k, sc, kind)
     elif kind == "ifelse":
         # the conditional reached through add_if / add_else: `conditional_node` of either branch builder is the
-        # handle of a container whose outputs are set
+        # handle of a container whose outputs are set (m outputs from k inputs)
         cw = outer.load(val.TRUE)
         if_ = outer.add_if(cw, *bwires[:k])
-        if_.set_outputs(*if_.inputs())
+        isrc = list(if_.inputs()) or [if_.load(val.TRUE)]
+        if_.set_outputs(*[isrc[i % len(isrc)] for i in range(m)])
         else_ = if_.add_else()
-        else_.set_outputs(*else_.inputs())
-        handle_checks(ctx, else_.conditional_node, k, sc, "add_else().conditional_node")
-        handle_checks(ctx, if_.conditional_node, k, sc, "add_if().conditional_node")
+        esrc = list(else_.inputs()) or [else_.load(val.FALSE)]
+        else_.set_outputs(*[esrc[i % len(esrc)] for i in range(m)])
+        handle_checks(ctx, else_.conditional_node, m, sc, "add_else().conditional_node")
+        handle_checks(ctx, if_.conditional_node, m, sc, "add_if().conditional_node")
     elif kind in ("loop", "insert_loop"):
         b = (outer.add_tail_loop([bwires[0]], bwires[1:k]) if kind == "loop"
              else TailLoop([B], [B] * max(k - 1, 0)))
